@@ -441,7 +441,9 @@ type scratchRef struct {
 }
 
 // genScratch generates from a pristine copy.
-func (c *Ctx) genScratch(src string) scratchRef {
+func (c *Ctx) genScratch(src string) scratchRef { return c.genScratchOpt(src, true) }
+
+func (c *Ctx) genScratchOpt(src string, build bool) scratchRef {
 	dir := c.Env.Dir("c07-ref")
 	defer os.RemoveAll(dir)
 	grun.WriteTree(dir, c07Tree("", src))
@@ -450,7 +452,7 @@ func (c *Ctx) genScratch(src string) scratchRef {
 	if b, err := os.ReadFile(filepath.Join(dir, "p", "derived.gen.go")); err == nil {
 		ref.derived, ref.exists = string(b), true
 	}
-	if g.Exit == 0 {
+	if g.Exit == 0 && build {
 		ref.builds = c.c07Compiles(dir, src)
 	}
 	return ref
@@ -523,6 +525,53 @@ func checkC07(c *Ctx) {
 			// whether the from-scratch output compiles is C01's subject; independence of the prior file is
 			// still decided for this history (bytes against the from-scratch run)
 			c.Run.Count("history-whose-from-scratch-output-does-not-compile", 1)
+		}
+		// systematically: every single call removed from / added to the initial program (one of them is
+		// the call whose functions come last in the file, one the call whose functions come first)
+		if prevRef.exists {
+			for ci := range prog.Calls {
+				q := prog.clone()
+				q.Calls = append(q.Calls[:ci], q.Calls[ci+1:]...)
+				if len(q.Calls) == 0 {
+					continue
+				}
+				qsrc := q.render()
+				cases = append(cases, c07Case{Name: fmt.Sprintf("c07-h%03d-rm%d", h, ci), Class: "history:remove-call", Desc: fmt.Sprintf("history %d: call %d of %d removed: one run over the full program's output", h, ci, len(prog.Calls)), Src: qsrc, Prior: prevRef.derived, HasPrev: true, PrevSrc: prevSrc})
+				if qref := c.genScratchOpt(qsrc, false); qref.exit == 0 && qref.exists {
+					cases = append(cases, c07Case{Name: fmt.Sprintf("c07-h%03d-add%d", h, ci), Class: "history:add-call", Desc: fmt.Sprintf("history %d: call %d of %d added back: one run over the output of the program without it", h, ci, len(prog.Calls)), Src: prevSrc, Prior: qref.derived, HasPrev: true, PrevSrc: qsrc})
+				}
+			}
+		}
+		// the earlier version had ONE more call whose functions come last in the file and need no further
+		// import: the new output is then a proper prefix of the old file. Which plugin is emitted last
+		// is found by trying candidates.
+		if prevRef.exists {
+			var cands []hCall
+			for _, k := range []string{"equal", "hash", "compare", "clone", "gostring", "deepcopy"} {
+				for _, a := range append(prog.structArgs(), "[]"+prog.Types[0].Name) {
+					if k != "deepcopy" || strings.HasPrefix(a, "*") {
+						cands = append(cands, hCall{Kind: k, Name: "ZZlast", Arg: a})
+					}
+				}
+			}
+			cands = append(cands, hCall{Kind: "unique", Name: "ZZlast", Arg: "int"}, hCall{Kind: "contains", Name: "ZZlast", Arg: "int"}, hCall{Kind: "min", Name: "ZZlast", Arg: "int"}, hCall{Kind: "keys", Name: "ZZlast", Arg: "map[int]bool"})
+			found := 0
+			for _, cand := range cands {
+				q := prog.clone()
+				q.Calls = append(q.Calls, cand)
+				if len(q.dedupCalls().Calls) != len(q.Calls) {
+					continue
+				}
+				qsrc := q.render()
+				qref := c.genScratchOpt(qsrc, false)
+				if qref.exit != 0 || !strings.HasPrefix(qref.derived, prevRef.derived) || len(qref.derived) <= len(prevRef.derived) {
+					continue
+				}
+				cases = append(cases, c07Case{Name: fmt.Sprintf("c07-h%03d-rmlast%d", h, found), Class: "history:remove-last-function", Desc: fmt.Sprintf("history %d: the earlier version had one more call (%s over %s) whose functions were the last in the file: one run over its output", h, cand.Kind, cand.Arg), Src: prevSrc, Prior: qref.derived, HasPrev: true, PrevSrc: qsrc})
+				if found++; found == 2 {
+					break
+				}
+			}
 		}
 		for s := 0; s < steps; s++ {
 			var cls string
